@@ -465,3 +465,65 @@ Proof.
   - destruct (Z.leb_spec t0 T); simpl; eexists; split; try reflexivity; lia.
   - eexists. split; [reflexivity|lia].
 Qed.
+
+(* ---- over-filled reports (filled > quantity: the remaining quantity is negative, not zero) -------- *)
+
+Lemma overfilled_is_open_report : forall sn m,
+  o_state sn = SA (Open m) -> rem (o_qty sn) m < 0 ->
+  open_report (Snap sn) = Some (m_time m, m).
+Proof.
+  intros sn m Hs Hr. simpl. rewrite Hs. destruct (Z.eqb_spec (rem (o_qty sn) m) 0); [lia|reflexivity].
+Qed.
+
+Lemma open_report_tracked : forall s o d, open_report o = Some d -> step s o (cid_of o) <> None.
+Proof.
+  intros s o [T m] H Hn. destruct (open_report_floor s o T m H) as [t' [Ht' _]].
+  unfold ts in Ht'. rewrite Hn in Ht'. discriminate.
+Qed.
+
+Lemma open_report_not_recopen : forall o d c,
+  open_report o = Some d -> forall r, o = RecOpen r -> k_cid (o_key r) <> c.
+Proof. intros o d c H r ->. discriminate. Qed.
+
+(** any run of open reports (something left, or over-filled) about a tracked id that holds open
+    data at least as recent as T leaves it tracked with data at least as recent as T: late
+    reports never roll the held details back *)
+Theorem open_reports_floor_run : forall ops s c T t0,
+  ts s c = Some t0 -> T <= t0 ->
+  Forall (fun o => cid_of o = c /\ open_report o <> None) ops ->
+  exists t', ts (run ops s) c = Some t' /\ T <= t'.
+Proof.
+  induction ops as [|o ops IH]; intros s c T t0 Ht Hle Hall.
+  - exists t0. split; assumption.
+  - inversion Hall as [|? ? [Hc Ho] Hrest]; subst.
+    destruct (open_report o) as [d|] eqn:E; [|congruence].
+    destruct (details_persist s o (cid_of o) t0 Ht (open_report_tracked s o d E)
+                (open_report_not_recopen o d _ E)) as [t1 [Ht1 Hle1]].
+    simpl. apply (IH (step s o) (cid_of o) T t1); auto. lia.
+Qed.
+
+(** ... in particular after an over-filled report: the order stays tracked, and no later open
+    report, however late it was produced, moves the held details before the over-filled one *)
+Theorem overfilled_no_rollback : forall (s : orders) sn m ops,
+  o_state sn = SA (Open m) -> rem (o_qty sn) m < 0 ->
+  Forall (fun o => cid_of o = k_cid (o_key sn) /\ open_report o <> None) ops ->
+  exists t', ts (run ops (step s (Snap sn))) (k_cid (o_key sn)) = Some t' /\ m_time m <= t'.
+Proof.
+  intros s sn m ops Hs Hr Hall.
+  pose proof (overfilled_is_open_report sn m Hs Hr) as Ho.
+  destruct (open_report_floor s (Snap sn) (m_time m) m Ho) as [t1 [Ht1 Hle1]].
+  exact (open_reports_floor_run ops (step s (Snap sn)) _ (m_time m) t1 Ht1 Hle1 Hall).
+Qed.
+
+(** a non-empty run of open reports leaves the id tracked *)
+Lemma open_reports_tracked : forall ops s c,
+  ops <> [] -> Forall (fun o => cid_of o = c /\ open_report o <> None) ops ->
+  run ops s c <> None.
+Proof.
+  induction ops as [|o ops IH]; intros s c Hne Hall; [congruence|].
+  inversion Hall as [|? ? [Hc Ho] Hrest]; subst.
+  destruct (open_report o) as [d|] eqn:E; [|congruence].
+  destruct ops as [|o2 ops].
+  - simpl. apply (open_report_tracked s o d E).
+  - change (run (o :: o2 :: ops) s) with (run (o2 :: ops) (step s o)). apply IH; [discriminate|auto].
+Qed.
